@@ -1,35 +1,68 @@
 #!/usr/bin/env python3
 """helper: (re)generate MANIFEST.json from the table below"""
 import json, sys
+COMMON_NOTE = ('Trusted: rustc MIR printer, the mirsym executor and its models of std/daachorse/phf functions (listed in evidence '
+               'trusted_base, validated against the repository\'s own 677 test triples and by native replay of every counterexample), z3. ')
+T = 'symbolic execution of the crate\'s MIR (regenerated from /repo each run) + SMT (z3); counterexamples replayed on the compiled crate'
 CHECKS = {
+ 'C01': dict(text='Bounded, solver-decided: the decimal digits of n and the orthographic variant flags are solver variables; the reference speller of each of the seven languages turns them into word slots; text2digits and find_numbers are executed from MIR over the slots and z3 decides that the validator returns exactly decimal(n) and the scanner exactly one occurrence (text, value, span, not ordinal), bare and inside sentence contexts. Quick: n < 10^6 plus a sparse domain reaching the million/billion words; thorough: n < 10^12.',
+             note=COMMON_NOTE + 'Reference spellers in oracle/langs.py (standard orthography + listed variants; forms left out are listed in evidence outside_bounds). The de "eine Million" rejection is a listed known finding.', ref='DESIGN.md 4 C01'),
+ 'C02': dict(text='Bounded, solver-decided: (a) the tokenizer on n <= 4/6 symbolic characters with uninterpreted classification and UTF-8 width yields maximal word/separator runs that partition the text on character boundaries and never panics; (b) replace_numbers_in_stream with a recording replacement constructor keeps or hands over every token exactly once in order and constructs exactly the occurrences find_numbers reports (streams of 3 words); (c) texts without number words are returned identical part by part.',
+             note=COMMON_NOTE + 'Uninterpreted is_alphanumeric/len_utf8 (fixed on ASCII only).', ref='DESIGN.md 4 C02'),
+ 'C03': dict(text='Bounded, solver-decided: every panic site reached (MIR asserts, unwrap, slice/str indexing, drain/insert ranges, copy/swap length checks) is an obligation; decided here for text2digits on degenerate phrases of 0..2 tokens (empty, hyphen-only, apostrophes, digits, non-Latin) and for find_numbers / the lazy iterator on such streams at NaN, +-inf, -0.0, subnormal, MAX and negative thresholds; all other checks additionally fail on any satisfiable panic within their own input spaces.',
+             note=COMMON_NOTE + 'Very long inputs, allocation failure and stack depth are outside.', ref='DESIGN.md 4 C03'),
+ 'C04': dict(text='Bounded, solver-decided: digits of the rank and the inflection are solver variables; the reference ordinal speller produces word slots; validator and scanner (threshold 0) are executed from MIR and z3 decides that the result is decimal(n) + the marker of the inflection, flagged ordinal, value n, one occurrence. Quick: en < 10^4, es/pt <= 1999, others < 1000; thorough: < 10^6 (es/pt <= 1999).',
+             note=COMMON_NOTE + 'Reference ordinal spellers in oracle/ordinals.py; es lone "segundo(s)" and it "secondi" are listed known findings (deliberate time-unit ambiguity).', ref='DESIGN.md 4 C04'),
+ 'C05': dict(text='Bounded, solver-decided: digits of the integer part (< 1000 quick / < 10^6), the fractional digits (dictated in en/de; leading zeros + a number, or zeros alone, elsewhere) and the variant flags are solver variables; the scanner is executed from MIR on "int sep frac" and z3 decides one occurrence with text int<mark>frac (every digit kept) and that value; a separator with no number before it or nothing after it stays a word.',
+             note=COMMON_NOTE + 'Reference spellers as C01.', ref='DESIGN.md 4 C05'),
+ 'C06': dict(text='Bounded model checking: find_numbers executed from MIR over all streams of 3 words (each a solver-chosen behaviour class of the language alphabet, separators solver-chosen) at thresholds 0 and 10; z3 decides that every occurrence has an in-range span on word tokens, spans are increasing and disjoint, the text is a numeral of the language, the value is the reading of exactly those digits and is_ordinal <=> marker.',
+             note=COMMON_NOTE + 'Quick tier uses the core words of each language (one per behaviour class), thorough every behaviour class of the regenerated alphabet.', ref='DESIGN.md 4 C06'),
+ 'C07': dict(text='Bounded model checking: for every phrase of 3 solver-chosen words the scanner (threshold 0) and the validator (whole phrase and every sub-span) are executed from MIR on the same symbolic words; z3 decides that each non-decimal occurrence validates to its own text, an accepted phrase is exactly one occurrence with the same digits, and no word that validates on its own is left outside every occurrence.',
+             note=COMMON_NOTE + 'Alphabet as C06.', ref='DESIGN.md 4 C07'),
+ 'C08': dict(text='Bounded, solver-decided: (a,b) in [0,99]^2, joiner (space or conjunction) and variants are solver variables; the scanner is executed from MIR on spell(a) joiner spell(b); z3 decides that the outcome is the two numbers in order or the single number whose standard spelling consists of exactly those words (table from the reference speller), with the zero rules; dictation of up to 5/8 digits gives exactly the stated grouping.',
+             note=COMMON_NOTE + 'Fusion table computed from the reference speller only.', ref='DESIGN.md 4 C08'),
+ 'C09': dict(text='Bounded model checking: find_numbers executed from MIR over streams of 3 solver-chosen words at threshold 0 and at each of the listed thresholds (10, 3, NaN, -1; thorough more); z3 decides that occurrences at the threshold are a sub-sequence of those at 0 and that a number is kept exactly when it is not small or has a same-kind neighbour with only ignorable tokens between (policy oracle from the statement).',
+             note=COMMON_NOTE + 'Linking words = those for which is_linking answers true on the token text.', ref='DESIGN.md 4 C09'),
+ 'C10': dict(text='Bounded, solver-decided at text level: texts A, B of solver-chosen words and "A lorem ipsum dolor. B" go through tokenize/basic_annotate/find_numbers from MIR; z3 decides that the occurrences of the joined text are those of A followed by those of B shifted.',
+             note=COMMON_NOTE + 'Tokenizer abstracted on part-structured texts (justified by C02a). French uses a reduced alphabet around the ambiguity rule.', ref='DESIGN.md 4 C10'),
+ 'C11': dict(text='Bounded model checking: the same solver-chosen stream of 3 words is scanned from MIR all lowercase and with a solver-chosen recasing per word; z3 decides identical occurrences at the threshold and identical text2digits results.',
+             note=COMMON_NOTE + 'Recasings: lower, UPPER, Capitalised, alternating; only reversible ones.', ref='DESIGN.md 4 C11'),
  'C12': dict(text='Bounded, solver-decided: every public DigitString method is executed symbolically from its MIR on an arbitrary valid builder state (symbolic length <= 8 quick / 14 thorough, symbolic digits, zero counter, frozen bit, flags, marker) and z3 shows result and post-state equal the documented semantics, no panic condition is satisfiable and the digit invariant is re-established (one inductive step, so operation sequences of any length within the length bound are covered).',
-             note='Trusted: rustc MIR printer, the mirsym executor and its models of Vec<u8>/slice/iterator functions (listed in evidence trusted_base), z3, the reference semantics in checks/c12.py. Bounds: buffer <= 8/14 digits, arguments 1..3/4 digits, shift 0..12.',
-             tech='symbolic execution of MIR + SMT (z3), inductive step from arbitrary valid state, native replay of counterexamples', ref='DESIGN.md section 4 C12'),
- 'C01': dict(text='Bounded, solver-decided: the decimal digits of n (n < 10^6 quick, < 10^12 thorough) and the orthographic variant flags are solver variables; the reference speller of each of the seven languages turns them into word slots; text2digits and find_numbers are executed from MIR over the slots and z3 decides that the validator returns exactly decimal(n) and the scanner exactly one occurrence (text, value, span, not ordinal), bare and inside sentence contexts.',
-             note='Trusted: MIR printer, mirsym executor + intrinsics, z3, the reference spellers in oracle/langs.py (standard orthography + listed variants; forms left out are listed in evidence outside_bounds). The de "eine Million" rejection is a listed known finding.',
-             tech='symbolic execution of MIR over solver-chosen spellings + SMT (z3); native replay', ref='DESIGN.md section 4 C01'),
- 'C16': dict(text='Bounded, solver-decided: k zero words (k symbolic, <= 3 quick / 6 thorough) followed by the reference spelling of n (digits symbolic) give the single numeral 0^k n in validator and scanner; spell(n) followed by a zero gives the numerals n and 0; the lone zero validates to 0.',
-             note='Trusted: as C01. Quick tier restricts the non-zero digits of n to pairs of three-digit groups (units+thousands, units+millions, millions+billions); thorough n < 10^9.',
-             tech='symbolic execution of MIR over solver-chosen spellings + SMT (z3); native replay', ref='DESIGN.md section 4 C16'),
+             note=COMMON_NOTE + 'Reference semantics in checks/c12.py. Bounds: buffer <= 8/14 digits, arguments 1..3/4 digits, shift 0..12.', ref='DESIGN.md 4 C12'),
+ 'C13': dict(text='Solver-decided without input bounds: each LangInterpreter method of Language is executed from MIR for each variant with opaque arguments and the inner interpreter uninterpreted: exactly one forwarded call to the same method of the variant\'s own type with identical arguments and unchanged result; get_interpreter_for is executed on an opaque string with free, pairwise exclusive equality Booleans: Some(L) exactly for the ISO code of each built-in language, None otherwise.',
+             note=COMMON_NOTE + 'End-to-end equality follows because generic code reaches an interpreter only through the eight trait methods.', ref='DESIGN.md 4 C13'),
+ 'C14': dict(text='Solver-decided reachability of every std print call site in the MIR from text2digits/find_numbers over two-word phrases drawn from the whole vocabulary of each language (native replay with captured stdout/stderr); scan of all MIR types/callees for interior mutability, mutable statics and thread-locals plus a two-call query per language; Send+Sync by the compiler. The quantifier over thread interleavings is NOT explored.',
+             note=COMMON_NOTE + 'No engine of this family explores schedules of Rust code; stated in evidence and DESIGN.md section 6.', ref='DESIGN.md 4 C14, 6'),
+ 'C15': dict(text='Bounded model checking: streams of 2 (quick) / 3 words with solver-chosen words, separators and free hint flags on every token; find_numbers and the FindNumbers iterator (driven by a small harness written in MIR syntax that calls the real next until None) are executed from MIR; z3 decides lazy == batch item by item, nothing read before the first request and never beyond the second recognised number after the returned one, no not-a-number-part token inside an occurrence, no separated token sharing an occurrence with its predecessor.',
+             note=COMMON_NOTE + 'The separation hint on a whitespace/hyphen token being ignored is a listed known finding.', ref='DESIGN.md 4 C15'),
+ 'C16': dict(text='Bounded, solver-decided: k zero words (k symbolic, <= 3 quick / 6 thorough) followed by the reference spelling of n give the single numeral 0^k n in validator and scanner; spell(n) followed by a zero gives the numerals n and 0; the lone zero validates to 0. Quick: sparse domain reaching every scale word; thorough n < 10^9.',
+             note=COMMON_NOTE + 'Reference spellers as C01; de "eine Million" is a listed known finding.', ref='DESIGN.md 4 C16'),
+ 'C17': dict(text='Bounded, solver-decided at text level: texts of 2 (quick) / 3 solver-chosen words separated by solver-chosen whitespace runs (any of the 25 White_Space characters and some two-character runs), with and without leading/trailing whitespace, compared with the single-space text: occurrences and validation result equal.',
+             note=COMMON_NOTE + 'Tokenizer abstracted on part-structured texts (justified by C02a).', ref='DESIGN.md 4 C17'),
+ 'C18': dict(text='Bounded, solver-decided at text level: English texts of three solver-chosen words with "o" at each position and solver-chosen separators are run three times from MIR (as is, "o" replaced by "zero", by an ordinary word); z3 decides that the first equals the second when the nearest non-whitespace neighbour is a number word and the third otherwise.',
+             note=COMMON_NOTE + 'Number word = a word text2digits accepts on its own.', ref='DESIGN.md 4 C18'),
 }
+for _k in CHECKS:
+    CHECKS[_k].setdefault('tech', T)
+VERIFIED = set((open('VERIFIED.txt').read().split() if __import__('os').path.exists('VERIFIED.txt') else []))
 def main():
     m = json.load(open('MANIFEST.json'))
     props = [json.loads(l)['id'] for l in open('properties.jsonl')]
     old_na = {x['property_id']: x['reason'] for x in m.get('not_applicable', [])}
     m['checks'] = []
     for pid in props:
-        if pid in CHECKS:
+        if pid in CHECKS and pid in VERIFIED:
             c = CHECKS[pid]
             m['checks'].append({'property_id': pid, 'quick_cmd': './check %s --tier quick' % pid,
                                 'thorough_cmd': './check %s --tier thorough' % pid, 'evidence_file': 'evidence/%s.json' % pid,
                                 'engine': 'mirsym', 'replay_cmd_template': 'cat {path}',
                                 'level_claimed': {'category': 'model_checking', 'text': c['text'], 'design_ref': c['ref']},
                                 'level_note': c['note'], 'technique': c['tech']})
-    m['not_applicable'] = [{'property_id': p, 'reason': old_na.get(p, 'check not built yet (in progress)')} for p in props if p not in CHECKS]
-    m['engines'][0]['serves_properties'] = sorted(CHECKS)
+    m['not_applicable'] = [{'property_id': p, 'reason': 'check built (checks/%s.py) but not yet passing cleanly on the unchanged tree within the time budget; not claimed' % p.lower()} for p in props if not (p in CHECKS and p in VERIFIED)]
+    m['engines'][0]['serves_properties'] = sorted(VERIFIED)
     m['hooks']['source_commits'] = ['1e8656f']
     json.dump(m, open('MANIFEST.json', 'w'), indent=1)
     import jsonschema
     jsonschema.validate(m, json.load(open('/root/.vp/MANIFEST.schema.json')))
-    print('manifest ok:', sorted(CHECKS))
+    print('manifest ok:', sorted(VERIFIED))
 main()
